@@ -263,7 +263,7 @@ def gen_mincost(rng, nmax=8, general=False):
     arcs = []
     dens = rng.choice([0.25, 0.4, 0.6])
     neg = rng.random() < 0.3
-    par = rng.random() < 0.3
+    par = rng.random() < 0.45
     # negative costs without negative cycles: cost = non-negative base + pi[u] - pi[v] for node potentials pi
     pi = [rng.randint(0, 4) if neg else 0 for _ in range(n)]
     for u in range(n):
@@ -272,7 +272,7 @@ def gen_mincost(rng, nmax=8, general=False):
                 continue
             cost = rng.randint(0, 6) + pi[u] - pi[v]
             arcs.append([u, v, rng.choice([0, 1, 2, 3, 4]), cost])
-            if par and rng.random() < 0.3:
+            if par and rng.random() < 0.5:
                 arcs.append([u, v, rng.randint(1, 3), cost if rng.random() < 0.4 else rng.randint(0, 6) + pi[u] - pi[v]])
     rng.shuffle(arcs)
     case = {"n": n, "arcs": arcs[:14], "s": 0, "t": n - 1, "labels": rng.choice(["int", "str"])}
